@@ -1152,7 +1152,7 @@ fn run_case(pc: &ICase, stats: &mut Stats, genr: Option<(&mut Prng, usize)>) -> 
 fn main() {
     let a = cf::parse_args();
     let mut stats = Stats::default();
-    let header = "From stdpp Require Import gmap.\nFrom VF Require Import Model.Init Model.Eam Base.Corr.\nFrom Coq Require Import ZArith NArith List Uint63.\nImport ListNotations.\nOpen Scope Z_scope.\nOpen Scope uint63_scope.\n";
+    let header = "From stdpp Require Import gmap.\nFrom VF Require Import Model.Init Model.Eam Base.Corr.\nFrom Coq Require Import ZArith NArith List Uint63.\nImport ListNotations.\nOpen Scope Z_scope.\n";
     let mut cw = CaseWriter::new(&a.out, header, "check_case", a.shards);
     if let Some(p) = &a.replay {
         let v: serde_json::Value = serde_json::from_str(&std::fs::read_to_string(p).unwrap()).unwrap();
